@@ -92,6 +92,7 @@ def check(ctx):
     ctx.rule("R10", "a threaded alias stage gets the stream objects its resolved handles stand for, in every combination: a requested merge (stderr == subprocess.STDOUT) shares stdout's object even when stdout has no handle of its own, no request and no handle means the session's own stderr, an own handle means a writer on that handle (decision table of the selection in ProcProxyThread.run over the abstract handle values)", floor=6)
     ctx.rule("R11", "what the pipeline later reads from a threaded alias's `.stdout` / `.stderr` is a reader on the pipe or None, for both streams alike: the two attributes are normalised by the same chain of cases in ProcProxyThread.__init__ (a request flag left in `.stderr` - subprocess.STDOUT of `e>o` is the integer -2 - makes the command fail after it ran)", floor=2)
     ctx.rule("R12", "a callable alias gets the stage's stream objects under every naming of its parameters: run_alias_by_params binds by name only when *every* parameter carries a canonical name and binds by position as soon as one does not - the switch is computed from all parameters, with no exemption by default value or kind (`def f(args, inp=None, out=None, err=None)` must receive the streams, not its Nones)", floor=1)
+    ctx.rule("R13", "the two output streams of the last stage are wired independently: in the function that prepares the capture of the last stage every normal path passes the decision about stdout *and* the decision about stderr (`if <spec>.stderr is not None ..`) - a way out after the stdout half (a 'nothing left to capture' shortcut for `cmd > file`) leaves stderr of `!(cmd > file)` unwired: it is inherited, reaches the terminal and never the capture", floor=2)
     ctx.rule("R5", "sibling stage-kind handlers agree on the merge flags (subprocess.STDOUT on stderr, the `2` flag on stdout)", floor=3)
 
     tk = ctx.repo.module(TK)
@@ -455,6 +456,7 @@ def check(ctx):
     _alias_stream_selection(ctx)
     _reader_attr_siblings(ctx)
     _alias_param_binding(ctx)
+    _streams_wired_independently(ctx)
     _merge_spelling_boundary(ctx, tk, tf, redir_map)
     # ---- R8: how redirect targets are opened
     spm = ctx.repo.module(SP)
@@ -481,6 +483,33 @@ def check(ctx):
     if not n8:
         raise AnchorMissing(f"{SP}:safe_open: the open call")
 
+
+
+def _streams_wired_independently(ctx):
+    """R13: every normal path of the last stage's capture wiring decides about stdout and about stderr."""
+    sp = ctx.repo.module("xonsh/procs/specs.py")
+    # by role: the function that opens the capture pipes of a stage - it stores into `.captured_stdout` and
+    # `.captured_stderr` of its parameter
+    cands = []
+    for q, f in sp.functions():
+        raw = f
+        tg = {t.attr for a in walk_local(raw) if isinstance(a, ast.Assign) and isinstance(a.value, ast.Call) and (call_name(a.value) or "").endswith("open_reader") for t in a.targets if isinstance(t, ast.Attribute)}
+        if {"captured_stdout", "captured_stderr"} <= tg and raw.args.args:
+            cands.append((q, raw))
+    if len(cands) != 1:
+        raise AnalysisError(f"xonsh/procs/specs.py: the function that wires the capture of the last stage not identified ({[q for q, _ in cands]})")
+    q, fn = cands[0]
+    fn = flat(ctx, fn, 2)
+    st = f"xonsh/procs/specs.py:{q}"
+    spec = fn.args.args[0].arg
+    cfg = CFG(fn)
+    for stream in ("stdout", "stderr"):
+        # the decision nodes of this stream: tests that read <spec>.<stream>, and stores into it / its capture slot
+        dec = [n for n in cfg.nodes if n.kind == "if" and any(isinstance(x, ast.Attribute) and x.attr == stream and unparse(x.value) == spec for x in ast.walk(n.ast.test)) and any(isinstance(a, ast.Assign) and any(isinstance(t, ast.Attribute) and t.attr in (stream, f"captured_{stream}") for t in a.targets) for a in ast.walk(n.ast))]
+        if not dec:
+            raise AnalysisError(f"{st}: no decision about {stream} found")
+        ok, path = cfg.must_pass(cfg.entry, lambda m, dec=dec: m in dec, exits=("exit",))
+        ctx.ob("R13", st, f"every normal path decides how {stream} of the last stage is wired", ok, key=f"{q}|{stream}-decision-skippable", where=loc(dec[0].ast), path=cfg.fmt_path(path) if path else None, detail=None if ok else f"a way out of the function goes round the decision about {stream}: under the capture forms that wire it (`!()`), the stream stays inherited - it reaches the terminal and never the capture")
 
 
 def _alias_stream_selection(ctx):
